@@ -237,9 +237,11 @@ def cli_cross_check(chk, cases):
                               {"cmd": [OKANE, "register", path, acct], "ledger": text, "register": pr.stdout[-1500:], "balance": pb.stdout})
         # ---- a report "converted" into the ledger's ONLY commodity is the report itself, over any range
         comms = set(c for v in whole.values() for c in v)
-        if len(comms) == 1:
+        import re as _re
+        if len(comms) == 1 and not _re.search(r"^[ \t]+format[ \t]", text, _re.M):
+            # (ledgers that declare a precision are left to C10, whose model says where a converted report rounds)
             c0 = next(iter(comms))
-            prec = declared_places(text, c0)
+            prec = None
             for rr in ranges_sx[:3]:
                 cmd = [OKANE, "balance", path, "-X", c0, "--now", "2999-01-01"]
                 if rr[0] != "-":
